@@ -51,6 +51,12 @@ CLAIMED = {
              "for both Morton implementations, which therefore agree. Hilbert: only that the walk's side length is round_pow2(max extent) and that the position depends on the extents through it alone; "
              "bijectivity/adjacency of the walk are NOT decided (data-dependent loop).",
         note="N in 1..3 (quick) / 1..4 (thorough); coordinate types size_t/int (quick) + unsigned (thorough); x86 pdep semantics as modelled; Hilbert walk correctness not claimed"),
+    "C15": dict(
+        level="other", design="5/C15", technique="compiler diagnostics over forced instantiations + undef/poison propagation through optimised LLVM IR + debug/release term equality + token rule for assertions",
+        text="Decides four static clauses: missing-return/uninitialised diagnostics over the explicitly instantiated stack universe (with and without NDEBUG); no undef/poison (LLVM's residue of provably undefined source paths) "
+             "reaching a query, output or guard in any entry harness of the other checks in both builds; reads of queried values in bounds; assertions side-effect free and both builds computing identical queries and outputs. "
+             "Heap bounds and overflow for runtime values are NOT decided (they would need execution under a sanitizer).",
+        note="clauses on runtime-value UB (signed overflow, fp->int range, heap extents) are outside this technique and stated as not decided"),
     "C16": dict(
         level="proof", design="5/C16", technique="sound effect analysis of optimised LLVM IR (store destinations via points-to, atomics/volatile, globals, callee whitelist) + token scan for shared-state constructs",
         text="Schedule-independent: every store a lookup can perform targets lookup-local memory, only constant globals are read, and the only callees are the backend query and pure functions - for every layer "
